@@ -7,7 +7,7 @@ Runs, each in its own scratch worktree of /repo under /tmp and with its own anal
   seeds    every stored seeded change x the checks named in meta.json  -> at least one check exit 1
   mutants  every developer mutant of tools/selftest.py                 -> fire (exit 1, needle in the report) or stay silent
 
-usage: tools/par_regress.py [-j N] [clean] [benign] [seeds] [mutants] [--only SUBSTR]
+usage: tools/par_regress.py [-j N] [clean] [benign] [seeds] [mutants] [--only REGEX]
 """
 import json
 import os
@@ -157,7 +157,7 @@ def main():
         for m in selftest.MUTANTS:
             tasks.append(("mutant " + m["id"], job_mutant, (m,)))
     if only:
-        tasks = [t for t in tasks if only in t[0]]
+        tasks = [t for t in tasks if re.search(only, t[0])]
     # long jobs first
     tasks.sort(key=lambda t: 0 if t[0].startswith("benign") else 1 if t[0].startswith("seed") else 2)
     pool = queue.Queue()
